@@ -187,10 +187,12 @@ class Loop(Node):
             warnings.warn("Unrolling a Loop with volatile repetition count", VolatileModificationWarning)
 
         i = self.parent_index
-        self.parent[i:i+1] = (child.copy_tree_structure(new_parent=self.parent)
-                              for _ in range(self.repetition_count)
-                              for child in self)
-        self.parent.assert_tree_integrity()
+        parent = self.parent
+        # self is removed from parent by the assignment (and forgets it)
+        parent[i:i+1] = (child.copy_tree_structure(new_parent=parent)
+                         for _ in range(self.repetition_count)
+                         for child in self)
+        parent.assert_tree_integrity()
 
     def __setitem__(self, idx, value):
         super().__setitem__(idx, value)
